@@ -42,10 +42,10 @@ ASSUMPTIONS = ["reference semantics of notation in vmon/refmodels/notation.py; i
                "export round trip judged on the multiset (onset, duration, MIDI pitch, staff) of all notes of the part",
                "fixture files are outside the quantifier: a reader that rejects one is counted, not judged",
                "float32 note-array columns compared with relative tolerance 1e-6, up to the constant pickup shift"]
-MIN_HOOKS = {"load_mei": {"quick": 1000, "thorough": 20000}, "load_kern": {"quick": 1000, "thorough": 20000},
-             "load_score": {"quick": 40, "thorough": 200}, "save_mei": {"quick": 150, "thorough": 3000},
-             "save_kern": {"quick": 150, "thorough": 3000}}
-MIN_NONTRIVIAL = {"quick": 500, "thorough": 10000}
+MIN_HOOKS = {"load_mei": {"quick": 1400, "thorough": 20000}, "load_kern": {"quick": 1400, "thorough": 20000},
+             "load_score": {"quick": 40, "thorough": 200}, "save_mei": {"quick": 200, "thorough": 3000},
+             "save_kern": {"quick": 200, "thorough": 3000}}
+MIN_NONTRIVIAL = {"quick": 700, "thorough": 10000}
 
 FIXTURE_DIR = os.path.join(core.REPO, "tests", "data")
 EXPECT = {}            # absolute file name -> expectation registered by the workload
@@ -620,21 +620,22 @@ def check_export(ctx, fmt, before, loaded, text, meta):
     cands = [k for k in left if k[2] == b["midi"]]
     same_time = [k for k in cands if k[0] == b["on"]]
     feature = f"{b['kind']}:{b['rhythm']}"
+    ctxt = "voice-start" if b["prev"] is None else ("after-gap" if b["gap_before"] else f"after-{b['prev']}")
+    # keys: what changed + the kind of note it happened to (the rhythm only where the note's own value is at stake)
     if any(k[1] == b["dur"] and k[0] == b["on"] for k in cands):
-        key, what = f"export-{fmt}-staff-changed:{feature}", "staff"
+        key, what = f"export-{fmt}-staff-changed", "staff"
     elif same_time:
         key, what = f"export-{fmt}-duration-changed:{feature}", "duration"
     elif any(k[1] == b["dur"] for k in cands):
-        ctxt = "voice-start" if b["prev"] is None else ("after-gap" if b["gap_before"] else f"after-{b['prev']}")
-        key, what = f"export-{fmt}-onset-changed:{feature}:{ctxt}", "onset"
+        key, what = f"export-{fmt}-onset-changed:{b['kind']}", f"onset ({ctxt})"
     elif cands:
-        key, what = f"export-{fmt}-onset-and-duration-changed:{feature}", "onset and duration"
+        key, what = f"export-{fmt}-onset-and-duration-changed:{b['kind']}", f"onset ({ctxt}) and duration"
     else:
         same_slot = [k for k in left if k[0] == b["on"] and k[1] == b["dur"]]
         if same_slot:
-            key, what = f"export-{fmt}-pitch-changed:{feature}", "pitch"
+            key, what = f"export-{fmt}-pitch-changed", "pitch"
         else:
-            key, what = f"export-{fmt}-note-lost:{feature}", "presence"
+            key, what = f"export-{fmt}-note-lost:{b['kind']}", "presence"
     report(ctx, key, f"save_{fmt} -> load changed the {what} of note {b['id']} ({feature}, voice {b['voice']}, staff {b['staff']}): "
                        f"{len(unmatched)} of {len(before)} notes not preserved",
                   {"note": brief(b), "candidates_after_reload": [[fq(a), fq(bb), c, d] for (a, bb, c, d) in (same_time or cands)[:4]],
@@ -780,8 +781,8 @@ def fixtures():
 
 
 def plan(tier, seed):
-    n = 72 if tier == "quick" else 1600
-    nx = 24 if tier == "quick" else 540
+    n = 96 if tier == "quick" else 1600
+    nx = 32 if tier == "quick" else 540
     items = []
     for i in range(n):
         scale = (0, 1, 1)[i % 3] if tier == "quick" else (0, 1, 2, 4)[i % 4]
